@@ -92,6 +92,45 @@ class RepoClass(object):
                     return m
         return None
 
+    def instances_have(self, name, _seen=None):
+        """Does the class (or a base class in the repository) ever assign self.<name> or define <name>?
+        None when a base class is outside the repository (unknown)."""
+        import ast as _ast
+        _seen = _seen or set()
+        if self.name in _seen:
+            return False
+        _seen.add(self.name)
+        for n in _ast.walk(self.node):
+            if isinstance(n, _ast.Attribute) and isinstance(n.ctx, _ast.Store) and n.attr == name \
+                    and isinstance(n.value, _ast.Name) and n.value.id in ('self', 'cls'):
+                return True
+            if isinstance(n, (_ast.FunctionDef, _ast.ClassDef)) and n.name == name and n in self.node.body:
+                return True
+            if isinstance(n, _ast.Assign) and n in self.node.body:
+                for t in n.targets:
+                    if isinstance(t, _ast.Name) and t.id == name:
+                        return True
+            if isinstance(n, _ast.Call) and isinstance(n.func, _ast.Name) and n.func.id == 'setattr':
+                return None
+        unknown = False
+        for bn in self.base_names():
+            if bn == 'object':
+                continue
+            try:
+                b = self.module.resolve(bn)
+            except KeyError:
+                unknown = True
+                continue
+            if isinstance(b, RepoClass):
+                r = b.instances_have(name, _seen)
+                if r:
+                    return True
+                if r is None:
+                    unknown = True
+            else:
+                unknown = True
+        return None if unknown else False
+
     def __repr__(self):
         return '<RepoClass %s>' % self.name
 
